@@ -1,3 +1,3 @@
 SPECIFICATION Spec
-CONSTANT Bug = "cmdOnly"
+CONSTANT Bug = "none"
 CHECK_DEADLOCK FALSE
